@@ -56,6 +56,7 @@ type Config struct {
 	Groups              []string `json:"groups"`    // enabled schedule-point roles; nil = all
 	SkipSeed            uint64   `json:"skip_seed"` // deterministic skiplist heights
 	PrefillAllKeys      bool     `json:"prefill_all_keys,omitempty"`
+	PrefillVlog         bool     `json:"prefill_vlog,omitempty"`
 	Prefill             int      `json:"prefill"` // percent of MemTableSize written (through the model) before scheduling starts
 }
 
